@@ -1,18 +1,22 @@
 /-
-  Line-protocol driver for C04 (receive loops of the three native transports).
+  Line-protocol driver for C04 (request/response exchanges of the three native transports).
 
-    rmcp <maxRetries> <ignoreRqSeq> <ignoreSduLen> <requeue> <slave> <nextSeq> <queue>
+    rmcp <maxRetries> <ignoreRqSeq> <ignoreSduLen> <requeue> <cmdOnly> <drain> <slave> <nextSeq> <queue> <sock>
          <rsSa> <netfn> <lun> <cmd> <payload> <routing> <ev>*
         queue   ::= - | hex,hex,…          routing ::= - | rq:rs:ch,rq:rs:ch,…
+        sock    ::= - | ev,ev,…            (datagrams still in the socket when the request starts)
         ev      ::= F<hex> | L<hex> | M | T           (F- is an empty payload)
-      -> <outcome> seq=<n> q=<queue> consumed=<n> sends=<n> tx=<hex>
+      -> <outcome> seq=<n> q=<queue> consumed=<n> sends=<n> tx=<hex> left=<sock>
+         (consumed: events read, of socket content + arrivals; left: what is in the socket afterwards)
     i2c <d|a> <nextSeq> <rsSa> <netfn> <lun> <cmd> <payload> <ev>*
         ev      ::= F<dt>:<hex> | L<dt>:<hex> | E<dt> | I
       -> <outcome> seq=<n> consumed=<n> sends=<n> tx=<hex>
+    probe <d|a> <inc 0|1> <nextSeq> <rsSa> <ev>*          (is_ipmc_accessible; ok = "accessible")
+      -> <outcome> seq=<n> consumed=<n> sends=<n> tx=<hex>
     oracle <checkSeq> <netfn> <lun> <cmd> <seq> <hex>*      (Spec.allowedAnswers)
       -> allowed <hex>*
-    classify <checkSeq> <netfn> <lun> <cmd> <seq> <hex>     (Spec predicates on one frame)
-      -> reply=<0|1> unrelated=<0|1> bareack=<0|1>
+    classify <checkSeq> <netfn> <lun> <cmd> <seq> <bridged -|seq> <hex>     (Spec predicates on one frame)
+      -> reply=<0|1> unrelated=<0|1> bareack=<0|1> ownrsp=<0|1>
     consts -> generated constants
   outcome ::= ok <hex> | <error tag>
 -/
@@ -55,6 +59,18 @@ def parseRxEvent (s : String) : Option RxEvent :=
   else if s.startsWith "L" then (ofHex (s.drop 1).toString).map .badLen
   else none
 
+def parseSock (s : String) : Option (List RxEvent) :=
+  if s == "-" then some [] else (s.splitOn ",").mapM parseRxEvent
+
+def showRxEvent : RxEvent → String
+  | .frame bs => "F" ++ toHex bs
+  | .badLen bs => "L" ++ toHex bs
+  | .malformed => "M"
+  | .timeout => "T"
+
+def showSock (l : List RxEvent) : String :=
+  if l.isEmpty then "-" else ",".intercalate (l.map showRxEvent)
+
 def parseDtHex (s : String) : Option (Nat × Frame) :=
   match s.splitOn ":" with
   | [a, b] => do
@@ -76,18 +92,21 @@ def handleC04 (line : String) : String :=
   match tokens line with
   | ["ping"] => "pong"
   | ["consts"] =>
-    s!"send={Gen.Loops04.cmdSendMessage} mod={Gen.Loops04.rmcpSeqMod} inner={Gen.Loops04.rmcpInnerExtra} outer={Gen.Loops04.rmcpOuterExtra} i2cTimeout={Gen.Loops04.ipmbdevTimeoutTicks} i2cRetries={Gen.Loops04.ipmbdevMaxRetries}"
-  | "rmcp" :: mr :: igs :: igl :: rq :: slave :: seq :: q :: rsSa :: netfn :: lun :: cmd :: pl :: rt :: evs =>
-    match mr.toNat?, parseBool igs, parseBool igl, parseBool rq, slave.toNat?, seq.toNat?, parseQueue q with
-    | some mr, some igs, some igl, some rq, some slave, some seq, some q =>
-      match rsSa.toNat?, netfn.toNat?, lun.toNat?, cmd.toNat?, ofHex pl, parseRouting rt, evs.mapM parseRxEvent with
-      | some rsSa, some netfn, some lun, some cmd, some pl, some rt, some evs =>
-        let cfg : Cfg := { maxRetries := mr, ignoreRqSeq := igs, ignoreSduLength := igl, requeue := rq, slaveAddr := slave }
+    s!"send={Gen.Loops04.cmdSendMessage} app={Gen.Loops04.netfnApp} mod={Gen.Loops04.rmcpSeqMod} inner={Gen.Loops04.rmcpInnerExtra} outer={Gen.Loops04.rmcpOuterExtra} i2cTimeout={Gen.Loops04.ipmbdevTimeoutTicks} i2cRetries={Gen.Loops04.ipmbdevMaxRetries}"
+  | "rmcp" :: mr :: igs :: igl :: rq :: co :: dr :: slave :: seq :: q :: sk :: rsSa :: netfn :: lun :: cmd :: pl :: rt :: evs =>
+    match mr.toNat?, parseBool igs, parseBool igl, parseBool rq, parseBool co, parseBool dr, slave.toNat?, seq.toNat? with
+    | some mr, some igs, some igl, some rq, some co, some dr, some slave, some seq =>
+      match parseQueue q, parseSock sk, rsSa.toNat?, netfn.toNat?, lun.toNat?, cmd.toNat?, ofHex pl, parseRouting rt,
+          evs.mapM parseRxEvent with
+      | some q, some sk, some rsSa, some netfn, some lun, some cmd, some pl, some rt, some evs =>
+        let cfg : Cfg := { maxRetries := mr, ignoreRqSeq := igs, ignoreSduLength := igl, requeue := rq, cmdOnly := co,
+                           drain := dr, slaveAddr := slave }
         let req : Req := { rsSa := rsSa, netfn := netfn, lun := lun, cmd := cmd, payload := pl, routing := rt }
-        let r := rmcpRequest cfg ⟨seq, q⟩ req evs
-        s!"{showOut r.out} seq={r.st.nextSeq} q={showQueue r.st.queue} consumed={evs.length - r.rest.length} sends={r.tx.length} tx={toHex (txData cfg req r.st.nextSeq)}"
-      | _, _, _, _, _, _, _ => "bad-op"
-    | _, _, _, _, _, _, _ => "bad-op"
+        let st : IfState := ⟨seq, q, sk⟩
+        let r := rmcpRequest cfg st req evs
+        s!"{showOut r.out} seq={r.st.nextSeq} q={showQueue r.st.queue} consumed={(pending cfg st evs).length - r.rest.length} sends={r.tx.length} tx={toHex (txData cfg req r.st.nextSeq)} left={showSock r.st.sock}"
+      | _, _, _, _, _, _, _, _, _ => "bad-op"
+    | _, _, _, _, _, _, _, _ => "bad-op"
   | "i2c" :: kind :: seq :: rsSa :: netfn :: lun :: cmd :: pl :: evs =>
     match seq.toNat?, rsSa.toNat?, netfn.toNat?, lun.toNat?, cmd.toNat?, ofHex pl, evs.mapM parseI2cEvent with
     | some seq, some rsSa, some netfn, some lun, some cmd, some pl, some evs =>
@@ -96,17 +115,25 @@ def handleC04 (line : String) : String :=
       let r := i2cRequest cfg seq req evs
       s!"{showOut r.out} seq={r.nextSeq} consumed={evs.length - r.rest.length} sends={r.tx.length} tx={toHex (encodeIpmbMsg (mkHdr cfg.slaveAddr req r.nextSeq) pl)}"
     | _, _, _, _, _, _, _ => "bad-op"
+  | "probe" :: kind :: inc :: seq :: rsSa :: evs =>
+    match parseBool inc, seq.toNat?, rsSa.toNat?, evs.mapM parseI2cEvent with
+    | some inc, some seq, some rsSa, some evs =>
+      let cfg := if kind == "d" then I2cCfg.ipmbdev else I2cCfg.aardvark
+      let r := i2cProbe cfg inc seq rsSa evs
+      s!"{showOut r.out} seq={r.nextSeq} consumed={evs.length - r.rest.length} sends={r.tx.length} tx={toHex (r.tx.headD [])}"
+    | _, _, _, _ => "bad-op"
   | "oracle" :: cs :: netfn :: lun :: cmd :: seq :: frames =>
     match parseBool cs, netfn.toNat?, lun.toNat?, cmd.toNat?, seq.toNat?, frames.mapM ofHex with
     | some cs, some netfn, some lun, some cmd, some seq, some frames =>
       let a := Spec.Attribution.allowedAnswers cs ⟨netfn, lun, cmd, seq⟩ frames
       " ".intercalate ("allowed" :: a.map toHex)
     | _, _, _, _, _, _ => "bad-op"
-  | ["classify", cs, netfn, lun, cmd, seq, f] =>
+  | ["classify", cs, netfn, lun, cmd, seq, br, f] =>
     match parseBool cs, netfn.toNat?, lun.toNat?, cmd.toNat?, seq.toNat?, ofHex f with
     | some cs, some netfn, some lun, some cmd, some seq, some f =>
       let r : Spec.Attribution.ReqId := ⟨netfn, lun, cmd, seq⟩
-      s!"reply={b01 (decide (Spec.Attribution.isReplyTo cs r f))} unrelated={b01 (decide (Spec.Attribution.Unrelated cs r f))} bareack={b01 (decide (Spec.Attribution.BareAck f))}"
+      let b : Option Nat := if br == "-" then none else br.toNat?
+      s!"reply={b01 (decide (Spec.Attribution.isReplyTo cs r f))} unrelated={b01 (decide (Spec.Attribution.Unrelated cs r b f))} bareack={b01 (decide (Spec.Attribution.BareAck cs b f))} ownrsp={b01 (decide (Spec.Attribution.OwnSendMsgRsp cs b f))}"
     | _, _, _, _, _, _ => "bad-op"
   | _ => "bad-op"
 
